@@ -9,6 +9,7 @@ CONSTANTS
   Weak_ValUpdatesEarly = FALSE
   Weak_ParamsBookkeeping = FALSE
   Weak_CommitAddrUnchecked = FALSE
+  Weak_StoredResponsesDropParamUpdates = FALSE
   Weak_BudgetUsesCurrentVals = FALSE
 INIT Init
 NEXT Next
